@@ -95,6 +95,13 @@ def check_code(s):
         v.append(("code-roundtrip", "codeB2ToB64(codeB64ToB2(%r), %d) = %r" % (s, len(s), back)))
     if helping.codeB64ToB2(s.encode()) != b:
         v.append(("codeB64ToB2:bytes-arg", "bytes argument differs for %r" % s))
+    # the conversions are functions of their arguments only: codes with the same leading octets but another length, converted
+    # right after, and the first code converted once more, must each come back as themselves
+    for other in ([s + "A"] + ([s[:-1]] if len(s) > 1 and s.endswith("A") else []) + [s]):
+        if helping.codeB2ToB64(helping.codeB64ToB2(other), len(other)) != other:
+            v.append(("code-roundtrip", "after converting %r, codeB2ToB64(codeB64ToB2(%r), %d) = %r" % (
+                s, other, len(other), helping.codeB2ToB64(helping.codeB64ToB2(other), len(other)))))
+            break
     return v
 
 
